@@ -458,6 +458,7 @@ func (c *Ctx) setQoSMarksDirtyWhenIDAppears() {
 // dirtyDiscipline: T3.
 func (c *Ctx) dirtyDiscipline() {
 	c.viewsOfDecodeBuffer()
+	c.headerLengthAfterRemainingLength()
 	c.setQoSMarksDirtyWhenIDAppears()
 	if c.R.Property == "C03" {
 		// a clone that keeps the image of the original: a setter on one of them rewrites the bytes the other one re-encodes
